@@ -638,7 +638,8 @@ def make_inversion(cfg, preload_F=None):
     if preload_F is not None: pk["curvature_matrix"] = preload_F
     for name in cfg.get("preloads", []):
         src, *_ = make_inversion({k: v for k, v in cfg.items() if k != "preloads"})
-        v = getattr(src, PRELOADABLE[name], None)
+        try: v = getattr(src, PRELOADABLE[name], None)
+        except Exception: v = None       # noqa  (a private helper that does not support this configuration: nothing to preload)
         if v is not None: pk[name] = np.array(v)
     if pk:
         pre = aa.Preloads(**pk)
